@@ -163,6 +163,7 @@ pub fn base_plan(inst: Inst, mode: &str, rng: &mut Rng, reports: usize) -> PlanA
         skew: None,
         timeouts: false,
         store_faults: Vec::new(),
+        bit_offsets: if inst.class == "poplar1" && rng.chance(1, 4) { (0..2 + rng.usize_below(7)).map(|_| if rng.chance(1, 3) { 0 } else { rng.below(64) as u8 }).collect() } else { Vec::new() },
         inst,
     }
 }
@@ -971,8 +972,16 @@ fn exec_xof_plan(id: &'static str, p: &crate::checks_c11::Plan11, counters: &mut
 }
 
 pub fn exec_plan_a(id: &'static str, accept: &'static [&'static str], plan: &PlanA, counters: &mut Counters) -> Result<RunOut, String> {
-    let vis = ExecVis { plan, counters, accept, id };
-    match guard_run(|| dispatch(&plan.inst, vis)) {
+    crate::inst_poplar::set_offsets(plan.bit_offsets.clone());
+    let r = {
+        let vis = ExecVis { plan, counters: &mut *counters, accept, id };
+        guard_run(|| dispatch(&plan.inst, vis))
+    };
+    let unaligned = crate::inst_poplar::clear_offsets();
+    if unaligned > 0 {
+        counters.add("probe.unaligned_idpf_input_storage", unaligned);
+    }
+    match r {
         Err(e) => Err(e),
         Ok(Ok(r)) => r,
         Ok(Err(BuildErr::Refused(e))) => Err(format!("generator produced an instance the constructor refuses: {:?}: {e}", plan.inst)),
@@ -990,6 +999,11 @@ pub fn exec_plan_a(id: &'static str, accept: &'static [&'static str], plan: &Pla
 /// Candidate simplifications of a world-A plan.
 pub fn shrink_plan_a(p: &PlanA) -> Vec<PlanA> {
     let mut out = Vec::new();
+    if !p.bit_offsets.is_empty() {
+        let mut q = p.clone();
+        q.bit_offsets.clear();
+        out.push(q);
+    }
     // drop faults, crashes
     for i in 0..p.faults.len() {
         let mut q = p.clone();
